@@ -1,3 +1,4 @@
+// NOTE: do NOT run gofmt on this file: every call-site literal must stay on ONE line (see c14entries).
 package main
 
 import (
@@ -60,351 +61,75 @@ func makeStackErr() error { return errorsv3.New("error created elsewhere") }
 // NOTE: keep every function literal on ONE line: the expected line is the line of here().
 func c14entries() []c14entry {
 	return []c14entry{
-		{"Error", "native", func(l slog.Logger, _ *stdslog.Logger, _ *stdlog.Logger, c context.Context) []site {
-			s := here()
-			l.Error(cm, "a", 1)
-			return s
-		}},
-		{"Warn", "native", func(l slog.Logger, _ *stdslog.Logger, _ *stdlog.Logger, c context.Context) []site {
-			s := here()
-			l.Warn(cm, "a", 1)
-			return s
-		}},
-		{"Info", "native", func(l slog.Logger, _ *stdslog.Logger, _ *stdlog.Logger, c context.Context) []site {
-			s := here()
-			l.Info(cm, "a", 1)
-			return s
-		}},
-		{"Debug", "native", func(l slog.Logger, _ *stdslog.Logger, _ *stdlog.Logger, c context.Context) []site {
-			s := here()
-			l.Debug(cm, "a", 1)
-			return s
-		}},
-		{"Trace", "native", func(l slog.Logger, _ *stdslog.Logger, _ *stdlog.Logger, c context.Context) []site {
-			s := here()
-			l.Trace(cm, "a", 1)
-			return s
-		}},
-		{"Print", "native", func(l slog.Logger, _ *stdslog.Logger, _ *stdlog.Logger, c context.Context) []site {
-			s := here()
-			l.Print(cm, "a", 1)
-			return s
-		}},
-		{"Println", "native", func(l slog.Logger, _ *stdslog.Logger, _ *stdlog.Logger, c context.Context) []site {
-			s := here()
-			l.Println(cm, "a", 1)
-			return s
-		}},
-		{"OK", "native", func(l slog.Logger, _ *stdslog.Logger, _ *stdlog.Logger, c context.Context) []site {
-			s := here()
-			l.OK(cm, "a", 1)
-			return s
-		}},
-		{"Success", "native", func(l slog.Logger, _ *stdslog.Logger, _ *stdlog.Logger, c context.Context) []site {
-			s := here()
-			l.Success(cm, "a", 1)
-			return s
-		}},
-		{"Fail", "native", func(l slog.Logger, _ *stdslog.Logger, _ *stdlog.Logger, c context.Context) []site {
-			s := here()
-			l.Fail(cm, "a", 1)
-			return s
-		}},
-		{"Panic", "native", func(l slog.Logger, _ *stdslog.Logger, _ *stdlog.Logger, c context.Context) []site {
-			s := here()
-			l.Panic(cm, "a", 1)
-			return s
-		}},
-		{"Fatal", "native", func(l slog.Logger, _ *stdslog.Logger, _ *stdlog.Logger, c context.Context) []site {
-			s := here()
-			l.Fatal(cm, "a", 1)
-			return s
-		}},
-		{"ErrorContext", "native", func(l slog.Logger, _ *stdslog.Logger, _ *stdlog.Logger, c context.Context) []site {
-			s := here()
-			l.ErrorContext(c, cm, "a", 1)
-			return s
-		}},
-		{"WarnContext", "native", func(l slog.Logger, _ *stdslog.Logger, _ *stdlog.Logger, c context.Context) []site {
-			s := here()
-			l.WarnContext(c, cm, "a", 1)
-			return s
-		}},
-		{"InfoContext", "native", func(l slog.Logger, _ *stdslog.Logger, _ *stdlog.Logger, c context.Context) []site {
-			s := here()
-			l.InfoContext(c, cm, "a", 1)
-			return s
-		}},
-		{"DebugContext", "native", func(l slog.Logger, _ *stdslog.Logger, _ *stdlog.Logger, c context.Context) []site {
-			s := here()
-			l.DebugContext(c, cm, "a", 1)
-			return s
-		}},
-		{"TraceContext", "native", func(l slog.Logger, _ *stdslog.Logger, _ *stdlog.Logger, c context.Context) []site {
-			s := here()
-			l.TraceContext(c, cm, "a", 1)
-			return s
-		}},
-		{"PrintContext", "native", func(l slog.Logger, _ *stdslog.Logger, _ *stdlog.Logger, c context.Context) []site {
-			s := here()
-			l.PrintContext(c, cm, "a", 1)
-			return s
-		}},
-		{"PrintlnContext", "native", func(l slog.Logger, _ *stdslog.Logger, _ *stdlog.Logger, c context.Context) []site {
-			s := here()
-			l.PrintlnContext(c, cm, "a", 1)
-			return s
-		}},
-		{"OKContext", "native", func(l slog.Logger, _ *stdslog.Logger, _ *stdlog.Logger, c context.Context) []site {
-			s := here()
-			l.OKContext(c, cm, "a", 1)
-			return s
-		}},
-		{"SuccessContext", "native", func(l slog.Logger, _ *stdslog.Logger, _ *stdlog.Logger, c context.Context) []site {
-			s := here()
-			l.SuccessContext(c, cm, "a", 1)
-			return s
-		}},
-		{"FailContext", "native", func(l slog.Logger, _ *stdslog.Logger, _ *stdlog.Logger, c context.Context) []site {
-			s := here()
-			l.FailContext(c, cm, "a", 1)
-			return s
-		}},
-		{"PanicContext", "native", func(l slog.Logger, _ *stdslog.Logger, _ *stdlog.Logger, c context.Context) []site {
-			s := here()
-			l.PanicContext(c, cm, "a", 1)
-			return s
-		}},
-		{"FatalContext", "native", func(l slog.Logger, _ *stdslog.Logger, _ *stdlog.Logger, c context.Context) []site {
-			s := here()
-			l.FatalContext(c, cm, "a", 1)
-			return s
-		}},
-		{"LogAttrs", "native", func(l slog.Logger, _ *stdslog.Logger, _ *stdlog.Logger, c context.Context) []site {
-			s := here()
-			l.LogAttrs(c, slog.InfoLevel, cm, "a", 1)
-			return s
-		}},
-		{"Logit", "native", func(l slog.Logger, _ *stdslog.Logger, _ *stdlog.Logger, c context.Context) []site {
-			s := here()
-			l.Logit(c, slog.WarnLevel, cm, "a", 1)
-			return s
-		}},
-		{"Log(std)", "native", func(l slog.Logger, _ *stdslog.Logger, _ *stdlog.Logger, c context.Context) []site {
-			s := here()
-			l.Log(c, stdslog.LevelInfo, cm, "a", 1)
-			return s
-		}},
-		{"Infof", "native", func(l slog.Logger, _ *stdslog.Logger, _ *stdlog.Logger, c context.Context) []site {
-			s := here()
-			_ = l.Infof("%s", cm)
-			return s
-		}},
-		{"Warnf", "native", func(l slog.Logger, _ *stdslog.Logger, _ *stdlog.Logger, c context.Context) []site {
-			s := here()
-			_ = l.Warnf("%s", cm)
-			return s
-		}},
-		{"Errorf", "native", func(l slog.Logger, _ *stdslog.Logger, _ *stdlog.Logger, c context.Context) []site {
-			s := here()
-			_ = l.Errorf("%s", cm)
-			return s
-		}},
-		{"pkg.Error", "pkg", func(_ slog.Logger, _ *stdslog.Logger, _ *stdlog.Logger, c context.Context) []site {
-			s := here()
-			slog.Error(cm, "a", 1)
-			return s
-		}},
-		{"pkg.Warn", "pkg", func(_ slog.Logger, _ *stdslog.Logger, _ *stdlog.Logger, c context.Context) []site {
-			s := here()
-			slog.Warn(cm, "a", 1)
-			return s
-		}},
-		{"pkg.Info", "pkg", func(_ slog.Logger, _ *stdslog.Logger, _ *stdlog.Logger, c context.Context) []site {
-			s := here()
-			slog.Info(cm, "a", 1)
-			return s
-		}},
-		{"pkg.Debug", "pkg", func(_ slog.Logger, _ *stdslog.Logger, _ *stdlog.Logger, c context.Context) []site {
-			s := here()
-			slog.Debug(cm, "a", 1)
-			return s
-		}},
-		{"pkg.Trace", "pkg", func(_ slog.Logger, _ *stdslog.Logger, _ *stdlog.Logger, c context.Context) []site {
-			s := here()
-			slog.Trace(cm, "a", 1)
-			return s
-		}},
-		{"pkg.Print", "pkg", func(_ slog.Logger, _ *stdslog.Logger, _ *stdlog.Logger, c context.Context) []site {
-			s := here()
-			slog.Print(cm, "a", 1)
-			return s
-		}},
-		{"pkg.Println", "pkg", func(_ slog.Logger, _ *stdslog.Logger, _ *stdlog.Logger, c context.Context) []site {
-			s := here()
-			slog.Println(cm, "a", 1)
-			return s
-		}},
-		{"pkg.OK", "pkg", func(_ slog.Logger, _ *stdslog.Logger, _ *stdlog.Logger, c context.Context) []site {
-			s := here()
-			slog.OK(cm, "a", 1)
-			return s
-		}},
-		{"pkg.Success", "pkg", func(_ slog.Logger, _ *stdslog.Logger, _ *stdlog.Logger, c context.Context) []site {
-			s := here()
-			slog.Success(cm, "a", 1)
-			return s
-		}},
-		{"pkg.Fail", "pkg", func(_ slog.Logger, _ *stdslog.Logger, _ *stdlog.Logger, c context.Context) []site {
-			s := here()
-			slog.Fail(cm, "a", 1)
-			return s
-		}},
-		{"pkg.Panic", "pkg", func(_ slog.Logger, _ *stdslog.Logger, _ *stdlog.Logger, c context.Context) []site {
-			s := here()
-			slog.Panic(cm, "a", 1)
-			return s
-		}},
-		{"pkg.Fatal", "pkg", func(_ slog.Logger, _ *stdslog.Logger, _ *stdlog.Logger, c context.Context) []site {
-			s := here()
-			slog.Fatal(cm, "a", 1)
-			return s
-		}},
-		{"pkg.ErrorContext", "pkg", func(_ slog.Logger, _ *stdslog.Logger, _ *stdlog.Logger, c context.Context) []site {
-			s := here()
-			slog.ErrorContext(c, cm, "a", 1)
-			return s
-		}},
-		{"pkg.WarnContext", "pkg", func(_ slog.Logger, _ *stdslog.Logger, _ *stdlog.Logger, c context.Context) []site {
-			s := here()
-			slog.WarnContext(c, cm, "a", 1)
-			return s
-		}},
-		{"pkg.InfoContext", "pkg", func(_ slog.Logger, _ *stdslog.Logger, _ *stdlog.Logger, c context.Context) []site {
-			s := here()
-			slog.InfoContext(c, cm, "a", 1)
-			return s
-		}},
-		{"pkg.DebugContext", "pkg", func(_ slog.Logger, _ *stdslog.Logger, _ *stdlog.Logger, c context.Context) []site {
-			s := here()
-			slog.DebugContext(c, cm, "a", 1)
-			return s
-		}},
-		{"pkg.TraceContext", "pkg", func(_ slog.Logger, _ *stdslog.Logger, _ *stdlog.Logger, c context.Context) []site {
-			s := here()
-			slog.TraceContext(c, cm, "a", 1)
-			return s
-		}},
-		{"pkg.PrintContext", "pkg", func(_ slog.Logger, _ *stdslog.Logger, _ *stdlog.Logger, c context.Context) []site {
-			s := here()
-			slog.PrintContext(c, cm, "a", 1)
-			return s
-		}},
-		{"pkg.PrintlnContext", "pkg", func(_ slog.Logger, _ *stdslog.Logger, _ *stdlog.Logger, c context.Context) []site {
-			s := here()
-			slog.PrintlnContext(c, cm, "a", 1)
-			return s
-		}},
-		{"pkg.OKContext", "pkg", func(_ slog.Logger, _ *stdslog.Logger, _ *stdlog.Logger, c context.Context) []site {
-			s := here()
-			slog.OKContext(c, cm, "a", 1)
-			return s
-		}},
-		{"pkg.SuccessContext", "pkg", func(_ slog.Logger, _ *stdslog.Logger, _ *stdlog.Logger, c context.Context) []site {
-			s := here()
-			slog.SuccessContext(c, cm, "a", 1)
-			return s
-		}},
-		{"pkg.FailContext", "pkg", func(_ slog.Logger, _ *stdslog.Logger, _ *stdlog.Logger, c context.Context) []site {
-			s := here()
-			slog.FailContext(c, cm, "a", 1)
-			return s
-		}},
-		{"pkg.PanicContext", "pkg", func(_ slog.Logger, _ *stdslog.Logger, _ *stdlog.Logger, c context.Context) []site {
-			s := here()
-			slog.PanicContext(c, cm, "a", 1)
-			return s
-		}},
-		{"pkg.FatalContext", "pkg", func(_ slog.Logger, _ *stdslog.Logger, _ *stdlog.Logger, c context.Context) []site {
-			s := here()
-			slog.FatalContext(c, cm, "a", 1)
-			return s
-		}},
-		{"Info+stackerr", "native", func(l slog.Logger, _ *stdslog.Logger, _ *stdlog.Logger, c context.Context) []site {
-			s := here()
-			l.Info(cm, "err", stackErr, "a", 1)
-			return s
-		}},
-		{"ErrorContext+stackerr", "native", func(l slog.Logger, _ *stdslog.Logger, _ *stdlog.Logger, c context.Context) []site {
-			s := here()
-			l.ErrorContext(c, cm, "err", stackErr)
-			return s
-		}},
-		{"LogAttrs+stackerr", "native", func(l slog.Logger, _ *stdslog.Logger, _ *stdlog.Logger, c context.Context) []site {
-			s := here()
-			l.LogAttrs(c, slog.WarnLevel, cm, slog.NewAttr("err", stackErr))
-			return s
-		}},
-		{"pkg.Warn+stackerr", "pkg", func(_ slog.Logger, _ *stdslog.Logger, _ *stdlog.Logger, c context.Context) []site {
-			s := here()
-			slog.Warn(cm, "err", stackErr)
-			return s
-		}},
-		{"slog.Logger.Error+stackerr", "slogadapter", func(_ slog.Logger, sl *stdslog.Logger, _ *stdlog.Logger, c context.Context) []site {
-			s := here()
-			sl.Error(cm, "err", stackErr)
-			return s
-		}},
-		{"slog.Logger.Info", "slogadapter", func(_ slog.Logger, sl *stdslog.Logger, _ *stdlog.Logger, c context.Context) []site {
-			s := here()
-			sl.Info(cm, "a", 1)
-			return s
-		}},
-		{"slog.Logger.WarnContext", "slogadapter", func(_ slog.Logger, sl *stdslog.Logger, _ *stdlog.Logger, c context.Context) []site {
-			s := here()
-			sl.WarnContext(c, cm, "a", 1)
-			return s
-		}},
-		{"slog.Logger.Log", "slogadapter", func(_ slog.Logger, sl *stdslog.Logger, _ *stdlog.Logger, c context.Context) []site {
-			s := here()
-			sl.Log(c, stdslog.LevelError, cm, "a", 1)
-			return s
-		}},
-		{"slog.Logger.LogAttrs", "slogadapter", func(_ slog.Logger, sl *stdslog.Logger, _ *stdlog.Logger, c context.Context) []site {
-			s := here()
-			sl.LogAttrs(c, stdslog.LevelInfo, cm, stdslog.Int("a", 1))
-			return s
-		}},
-		{"slog.Logger.With.Info", "slogadapter", func(_ slog.Logger, sl *stdslog.Logger, _ *stdlog.Logger, c context.Context) []site {
-			s := here()
-			sl.With("w", 2).Info(cm, "a", 1)
-			return s
-		}},
-		{"slog.Info(default)", "slogadapter-default", func(_ slog.Logger, sl *stdslog.Logger, _ *stdlog.Logger, c context.Context) []site {
-			s := here()
-			stdslog.Info(cm, "a", 1)
-			return s
-		}},
-		{"log.Print", "bridge", func(_ slog.Logger, _ *stdslog.Logger, bl *stdlog.Logger, c context.Context) []site {
-			s := here()
-			bl.Print(cm)
-			return s
-		}},
-		{"log.Printf", "bridge", func(_ slog.Logger, _ *stdslog.Logger, bl *stdlog.Logger, c context.Context) []site {
-			s := here()
-			bl.Printf("%s", cm)
-			return s
-		}},
-		{"log.Println", "bridge", func(_ slog.Logger, _ *stdslog.Logger, bl *stdlog.Logger, c context.Context) []site {
-			s := here()
-			bl.Println(cm)
-			return s
-		}},
-		{"log.Output", "bridge", func(_ slog.Logger, _ *stdslog.Logger, bl *stdlog.Logger, c context.Context) []site {
-			s := here()
-			_ = bl.Output(1, cm)
-			return s
-		}},
+		{"Error", "native", func(l slog.Logger, _ *stdslog.Logger, _ *stdlog.Logger, c context.Context) []site { s := here(); l.Error(cm, "a", 1); return s }},
+		{"Warn", "native", func(l slog.Logger, _ *stdslog.Logger, _ *stdlog.Logger, c context.Context) []site { s := here(); l.Warn(cm, "a", 1); return s }},
+		{"Info", "native", func(l slog.Logger, _ *stdslog.Logger, _ *stdlog.Logger, c context.Context) []site { s := here(); l.Info(cm, "a", 1); return s }},
+		{"Debug", "native", func(l slog.Logger, _ *stdslog.Logger, _ *stdlog.Logger, c context.Context) []site { s := here(); l.Debug(cm, "a", 1); return s }},
+		{"Trace", "native", func(l slog.Logger, _ *stdslog.Logger, _ *stdlog.Logger, c context.Context) []site { s := here(); l.Trace(cm, "a", 1); return s }},
+		{"Print", "native", func(l slog.Logger, _ *stdslog.Logger, _ *stdlog.Logger, c context.Context) []site { s := here(); l.Print(cm, "a", 1); return s }},
+		{"Println", "native", func(l slog.Logger, _ *stdslog.Logger, _ *stdlog.Logger, c context.Context) []site { s := here(); l.Println(cm, "a", 1); return s }},
+		{"OK", "native", func(l slog.Logger, _ *stdslog.Logger, _ *stdlog.Logger, c context.Context) []site { s := here(); l.OK(cm, "a", 1); return s }},
+		{"Success", "native", func(l slog.Logger, _ *stdslog.Logger, _ *stdlog.Logger, c context.Context) []site { s := here(); l.Success(cm, "a", 1); return s }},
+		{"Fail", "native", func(l slog.Logger, _ *stdslog.Logger, _ *stdlog.Logger, c context.Context) []site { s := here(); l.Fail(cm, "a", 1); return s }},
+		{"Panic", "native", func(l slog.Logger, _ *stdslog.Logger, _ *stdlog.Logger, c context.Context) []site { s := here(); l.Panic(cm, "a", 1); return s }},
+		{"Fatal", "native", func(l slog.Logger, _ *stdslog.Logger, _ *stdlog.Logger, c context.Context) []site { s := here(); l.Fatal(cm, "a", 1); return s }},
+		{"ErrorContext", "native", func(l slog.Logger, _ *stdslog.Logger, _ *stdlog.Logger, c context.Context) []site { s := here(); l.ErrorContext(c, cm, "a", 1); return s }},
+		{"WarnContext", "native", func(l slog.Logger, _ *stdslog.Logger, _ *stdlog.Logger, c context.Context) []site { s := here(); l.WarnContext(c, cm, "a", 1); return s }},
+		{"InfoContext", "native", func(l slog.Logger, _ *stdslog.Logger, _ *stdlog.Logger, c context.Context) []site { s := here(); l.InfoContext(c, cm, "a", 1); return s }},
+		{"DebugContext", "native", func(l slog.Logger, _ *stdslog.Logger, _ *stdlog.Logger, c context.Context) []site { s := here(); l.DebugContext(c, cm, "a", 1); return s }},
+		{"TraceContext", "native", func(l slog.Logger, _ *stdslog.Logger, _ *stdlog.Logger, c context.Context) []site { s := here(); l.TraceContext(c, cm, "a", 1); return s }},
+		{"PrintContext", "native", func(l slog.Logger, _ *stdslog.Logger, _ *stdlog.Logger, c context.Context) []site { s := here(); l.PrintContext(c, cm, "a", 1); return s }},
+		{"PrintlnContext", "native", func(l slog.Logger, _ *stdslog.Logger, _ *stdlog.Logger, c context.Context) []site { s := here(); l.PrintlnContext(c, cm, "a", 1); return s }},
+		{"OKContext", "native", func(l slog.Logger, _ *stdslog.Logger, _ *stdlog.Logger, c context.Context) []site { s := here(); l.OKContext(c, cm, "a", 1); return s }},
+		{"SuccessContext", "native", func(l slog.Logger, _ *stdslog.Logger, _ *stdlog.Logger, c context.Context) []site { s := here(); l.SuccessContext(c, cm, "a", 1); return s }},
+		{"FailContext", "native", func(l slog.Logger, _ *stdslog.Logger, _ *stdlog.Logger, c context.Context) []site { s := here(); l.FailContext(c, cm, "a", 1); return s }},
+		{"PanicContext", "native", func(l slog.Logger, _ *stdslog.Logger, _ *stdlog.Logger, c context.Context) []site { s := here(); l.PanicContext(c, cm, "a", 1); return s }},
+		{"FatalContext", "native", func(l slog.Logger, _ *stdslog.Logger, _ *stdlog.Logger, c context.Context) []site { s := here(); l.FatalContext(c, cm, "a", 1); return s }},
+		{"LogAttrs", "native", func(l slog.Logger, _ *stdslog.Logger, _ *stdlog.Logger, c context.Context) []site { s := here(); l.LogAttrs(c, slog.InfoLevel, cm, "a", 1); return s }},
+		{"Logit", "native", func(l slog.Logger, _ *stdslog.Logger, _ *stdlog.Logger, c context.Context) []site { s := here(); l.Logit(c, slog.WarnLevel, cm, "a", 1); return s }},
+		{"Log(std)", "native", func(l slog.Logger, _ *stdslog.Logger, _ *stdlog.Logger, c context.Context) []site { s := here(); l.Log(c, stdslog.LevelInfo, cm, "a", 1); return s }},
+		{"Infof", "native", func(l slog.Logger, _ *stdslog.Logger, _ *stdlog.Logger, c context.Context) []site { s := here(); _ = l.Infof("%s", cm); return s }},
+		{"Warnf", "native", func(l slog.Logger, _ *stdslog.Logger, _ *stdlog.Logger, c context.Context) []site { s := here(); _ = l.Warnf("%s", cm); return s }},
+		{"Errorf", "native", func(l slog.Logger, _ *stdslog.Logger, _ *stdlog.Logger, c context.Context) []site { s := here(); _ = l.Errorf("%s", cm); return s }},
+		{"pkg.Error", "pkg", func(_ slog.Logger, _ *stdslog.Logger, _ *stdlog.Logger, c context.Context) []site { s := here(); slog.Error(cm, "a", 1); return s }},
+		{"pkg.Warn", "pkg", func(_ slog.Logger, _ *stdslog.Logger, _ *stdlog.Logger, c context.Context) []site { s := here(); slog.Warn(cm, "a", 1); return s }},
+		{"pkg.Info", "pkg", func(_ slog.Logger, _ *stdslog.Logger, _ *stdlog.Logger, c context.Context) []site { s := here(); slog.Info(cm, "a", 1); return s }},
+		{"pkg.Debug", "pkg", func(_ slog.Logger, _ *stdslog.Logger, _ *stdlog.Logger, c context.Context) []site { s := here(); slog.Debug(cm, "a", 1); return s }},
+		{"pkg.Trace", "pkg", func(_ slog.Logger, _ *stdslog.Logger, _ *stdlog.Logger, c context.Context) []site { s := here(); slog.Trace(cm, "a", 1); return s }},
+		{"pkg.Print", "pkg", func(_ slog.Logger, _ *stdslog.Logger, _ *stdlog.Logger, c context.Context) []site { s := here(); slog.Print(cm, "a", 1); return s }},
+		{"pkg.Println", "pkg", func(_ slog.Logger, _ *stdslog.Logger, _ *stdlog.Logger, c context.Context) []site { s := here(); slog.Println(cm, "a", 1); return s }},
+		{"pkg.OK", "pkg", func(_ slog.Logger, _ *stdslog.Logger, _ *stdlog.Logger, c context.Context) []site { s := here(); slog.OK(cm, "a", 1); return s }},
+		{"pkg.Success", "pkg", func(_ slog.Logger, _ *stdslog.Logger, _ *stdlog.Logger, c context.Context) []site { s := here(); slog.Success(cm, "a", 1); return s }},
+		{"pkg.Fail", "pkg", func(_ slog.Logger, _ *stdslog.Logger, _ *stdlog.Logger, c context.Context) []site { s := here(); slog.Fail(cm, "a", 1); return s }},
+		{"pkg.Panic", "pkg", func(_ slog.Logger, _ *stdslog.Logger, _ *stdlog.Logger, c context.Context) []site { s := here(); slog.Panic(cm, "a", 1); return s }},
+		{"pkg.Fatal", "pkg", func(_ slog.Logger, _ *stdslog.Logger, _ *stdlog.Logger, c context.Context) []site { s := here(); slog.Fatal(cm, "a", 1); return s }},
+		{"pkg.ErrorContext", "pkg", func(_ slog.Logger, _ *stdslog.Logger, _ *stdlog.Logger, c context.Context) []site { s := here(); slog.ErrorContext(c, cm, "a", 1); return s }},
+		{"pkg.WarnContext", "pkg", func(_ slog.Logger, _ *stdslog.Logger, _ *stdlog.Logger, c context.Context) []site { s := here(); slog.WarnContext(c, cm, "a", 1); return s }},
+		{"pkg.InfoContext", "pkg", func(_ slog.Logger, _ *stdslog.Logger, _ *stdlog.Logger, c context.Context) []site { s := here(); slog.InfoContext(c, cm, "a", 1); return s }},
+		{"pkg.DebugContext", "pkg", func(_ slog.Logger, _ *stdslog.Logger, _ *stdlog.Logger, c context.Context) []site { s := here(); slog.DebugContext(c, cm, "a", 1); return s }},
+		{"pkg.TraceContext", "pkg", func(_ slog.Logger, _ *stdslog.Logger, _ *stdlog.Logger, c context.Context) []site { s := here(); slog.TraceContext(c, cm, "a", 1); return s }},
+		{"pkg.PrintContext", "pkg", func(_ slog.Logger, _ *stdslog.Logger, _ *stdlog.Logger, c context.Context) []site { s := here(); slog.PrintContext(c, cm, "a", 1); return s }},
+		{"pkg.PrintlnContext", "pkg", func(_ slog.Logger, _ *stdslog.Logger, _ *stdlog.Logger, c context.Context) []site { s := here(); slog.PrintlnContext(c, cm, "a", 1); return s }},
+		{"pkg.OKContext", "pkg", func(_ slog.Logger, _ *stdslog.Logger, _ *stdlog.Logger, c context.Context) []site { s := here(); slog.OKContext(c, cm, "a", 1); return s }},
+		{"pkg.SuccessContext", "pkg", func(_ slog.Logger, _ *stdslog.Logger, _ *stdlog.Logger, c context.Context) []site { s := here(); slog.SuccessContext(c, cm, "a", 1); return s }},
+		{"pkg.FailContext", "pkg", func(_ slog.Logger, _ *stdslog.Logger, _ *stdlog.Logger, c context.Context) []site { s := here(); slog.FailContext(c, cm, "a", 1); return s }},
+		{"pkg.PanicContext", "pkg", func(_ slog.Logger, _ *stdslog.Logger, _ *stdlog.Logger, c context.Context) []site { s := here(); slog.PanicContext(c, cm, "a", 1); return s }},
+		{"pkg.FatalContext", "pkg", func(_ slog.Logger, _ *stdslog.Logger, _ *stdlog.Logger, c context.Context) []site { s := here(); slog.FatalContext(c, cm, "a", 1); return s }},
+		{"Info+stackerr", "native", func(l slog.Logger, _ *stdslog.Logger, _ *stdlog.Logger, c context.Context) []site { s := here(); l.Info(cm, "err", stackErr, "a", 1); return s }},
+		{"ErrorContext+stackerr", "native", func(l slog.Logger, _ *stdslog.Logger, _ *stdlog.Logger, c context.Context) []site { s := here(); l.ErrorContext(c, cm, "err", stackErr); return s }},
+		{"LogAttrs+stackerr", "native", func(l slog.Logger, _ *stdslog.Logger, _ *stdlog.Logger, c context.Context) []site { s := here(); l.LogAttrs(c, slog.WarnLevel, cm, slog.NewAttr("err", stackErr)); return s }},
+		{"pkg.Warn+stackerr", "pkg", func(_ slog.Logger, _ *stdslog.Logger, _ *stdlog.Logger, c context.Context) []site { s := here(); slog.Warn(cm, "err", stackErr); return s }},
+		{"slog.Logger.Error+stackerr", "slogadapter", func(_ slog.Logger, sl *stdslog.Logger, _ *stdlog.Logger, c context.Context) []site { s := here(); sl.Error(cm, "err", stackErr); return s }},
+		{"slog.Logger.Info", "slogadapter", func(_ slog.Logger, sl *stdslog.Logger, _ *stdlog.Logger, c context.Context) []site { s := here(); sl.Info(cm, "a", 1); return s }},
+		{"slog.Logger.WarnContext", "slogadapter", func(_ slog.Logger, sl *stdslog.Logger, _ *stdlog.Logger, c context.Context) []site { s := here(); sl.WarnContext(c, cm, "a", 1); return s }},
+		{"slog.Logger.Log", "slogadapter", func(_ slog.Logger, sl *stdslog.Logger, _ *stdlog.Logger, c context.Context) []site { s := here(); sl.Log(c, stdslog.LevelError, cm, "a", 1); return s }},
+		{"slog.Logger.LogAttrs", "slogadapter", func(_ slog.Logger, sl *stdslog.Logger, _ *stdlog.Logger, c context.Context) []site { s := here(); sl.LogAttrs(c, stdslog.LevelInfo, cm, stdslog.Int("a", 1)); return s }},
+		{"slog.Logger.With.Info", "slogadapter", func(_ slog.Logger, sl *stdslog.Logger, _ *stdlog.Logger, c context.Context) []site { s := here(); sl.With("w", 2).Info(cm, "a", 1); return s }},
+		{"slog.Info(default)", "slogadapter-default", func(_ slog.Logger, sl *stdslog.Logger, _ *stdlog.Logger, c context.Context) []site { s := here(); stdslog.Info(cm, "a", 1); return s }},
+		{"log.Print", "bridge", func(_ slog.Logger, _ *stdslog.Logger, bl *stdlog.Logger, c context.Context) []site { s := here(); bl.Print(cm); return s }},
+		{"log.Printf", "bridge", func(_ slog.Logger, _ *stdslog.Logger, bl *stdlog.Logger, c context.Context) []site { s := here(); bl.Printf("%s", cm); return s }},
+		{"log.Println", "bridge", func(_ slog.Logger, _ *stdslog.Logger, bl *stdlog.Logger, c context.Context) []site { s := here(); bl.Println(cm); return s }},
+		{"log.Output", "bridge", func(_ slog.Logger, _ *stdslog.Logger, bl *stdlog.Logger, c context.Context) []site { s := here(); _ = bl.Output(1, cm); return s }},
 	}
 }
 
@@ -568,58 +293,58 @@ func c14sites(c *Ctx) {
 		ctx := context.Background()
 		var stack []site
 		for round := 0; round < 2; round++ { // twice from the same call site: a second record must be attributed like the first
-			log.Reset()
-			if idx%2 == 0 {
-				stack = chain(cl.skip, cl.noinline, func() []site { return e.call(target, sl, bl, ctx) })
-			} else {
-				stack = nest(cl.skip, cl.noinline, func() []site { return e.call(target, sl, bl, ctx) })
+		log.Reset()
+		if idx%2 == 0 {
+			stack = chain(cl.skip, cl.noinline, func() []site { return e.call(target, sl, bl, ctx) })
+		} else {
+			stack = nest(cl.skip, cl.noinline, func() []site { return e.call(target, sl, bl, ctx) })
+		}
+		desc := map[string]any{"round": round, "entry": e.name, "format": cl.f.String(), "skip": cl.skip, "skip_via": via, "logger": cl.kind, "wrappers_noinline": cl.noinline, "wrapper_style": map[bool]string{true: "direct chain", false: "closures"}[idx%2 == 0]}
+		evs := log.Writes("")
+		c.R.Add("calls", 1)
+		sig := func(clause string) string {
+			return fmt.Sprintf("C14/%s/%s/skip%d", clause, e.name, cl.skip)
+		}
+		if len(evs) != 1 {
+			c.R.Violation(idx, "record", sig("no-record"), fmt.Sprintf("expected one record at the logger's writer, saw %d (%s)", len(evs), clip(fmtEvents(log.Events()), 300)), desc)
+			return
+		}
+		d, err := decodeRecord(cl.f, evs[0].Data, true, true)
+		if err != nil {
+			c.R.Violation(idx, "decode", sig("decode"), err.Error()+": "+q(clip(string(evs[0].Data), 300)), desc)
+			return
+		}
+		// expected frame: the call statement for skip 0, n logical frames up for skip n. With closures in the
+		// wrapper chain each level contributes two frames (wrapper + closure), with the direct chain one.
+		want, ok := expectedFrame(stack, cl.skip)
+		if !ok {
+			c.R.Violation(idx, "harness", "C14/harness/stack", fmt.Sprintf("stack too short: %+v", stack), desc)
+			return
+		}
+		gotLine, _ := strconv.Atoi(d.Caller["line"])
+		gotFile := d.Caller["file"]
+		if gotFile != "" && !filepath.IsAbs(gotFile) {
+			gotFile = filepath.Join(cwd, gotFile)
+		}
+		gotFn := d.Caller["function"]
+		wantFn := want.Func
+		if cl.f == FColor {
+			if i := strings.LastIndex(wantFn, "/"); i >= 0 {
+				wantFn = wantFn[i+1:]
 			}
-			desc := map[string]any{"round": round, "entry": e.name, "format": cl.f.String(), "skip": cl.skip, "skip_via": via, "logger": cl.kind, "wrappers_noinline": cl.noinline, "wrapper_style": map[bool]string{true: "direct chain", false: "closures"}[idx%2 == 0]}
-			evs := log.Writes("")
-			c.R.Add("calls", 1)
-			sig := func(clause string) string {
-				return fmt.Sprintf("C14/%s/%s/skip%d", clause, e.name, cl.skip)
+		}
+		if gotLine != want.Line || filepath.Clean(gotFile) != filepath.Clean(want.File) || gotFn != wantFn {
+			c.R.Violation(idx, "attribution", sig("attribution"), fmt.Sprintf("record says %s:%s %s; the statement that issued it (skip %d) is %s:%d %s\nstack at the call: %+v", d.Caller["file"], d.Caller["line"], gotFn, cl.skip, want.File, want.Line, want.Func, stack), desc)
+			return
+		}
+		c.R.Add("attributions_confirmed", 1)
+		if round == 1 {
+			c.R.Distinct("entry_points", e.name)
+			c.R.NonTrivial(fmt.Sprint(desc), c.X("build", ""), c.Testing)
+			if c.R.WantSample() && cl.skip > 0 {
+				c.R.Sample(idx, desc, map[string]any{"reported": d.Caller, "expected": want})
 			}
-			if len(evs) != 1 {
-				c.R.Violation(idx, "record", sig("no-record"), fmt.Sprintf("expected one record at the logger's writer, saw %d (%s)", len(evs), clip(fmtEvents(log.Events()), 300)), desc)
-				return
-			}
-			d, err := decodeRecord(cl.f, evs[0].Data, true, true)
-			if err != nil {
-				c.R.Violation(idx, "decode", sig("decode"), err.Error()+": "+q(clip(string(evs[0].Data), 300)), desc)
-				return
-			}
-			// expected frame: the call statement for skip 0, n logical frames up for skip n. With closures in the
-			// wrapper chain each level contributes two frames (wrapper + closure), with the direct chain one.
-			want, ok := expectedFrame(stack, cl.skip)
-			if !ok {
-				c.R.Violation(idx, "harness", "C14/harness/stack", fmt.Sprintf("stack too short: %+v", stack), desc)
-				return
-			}
-			gotLine, _ := strconv.Atoi(d.Caller["line"])
-			gotFile := d.Caller["file"]
-			if gotFile != "" && !filepath.IsAbs(gotFile) {
-				gotFile = filepath.Join(cwd, gotFile)
-			}
-			gotFn := d.Caller["function"]
-			wantFn := want.Func
-			if cl.f == FColor {
-				if i := strings.LastIndex(wantFn, "/"); i >= 0 {
-					wantFn = wantFn[i+1:]
-				}
-			}
-			if gotLine != want.Line || filepath.Clean(gotFile) != filepath.Clean(want.File) || gotFn != wantFn {
-				c.R.Violation(idx, "attribution", sig("attribution"), fmt.Sprintf("record says %s:%s %s; the statement that issued it (skip %d) is %s:%d %s\nstack at the call: %+v", d.Caller["file"], d.Caller["line"], gotFn, cl.skip, want.File, want.Line, want.Func, stack), desc)
-				return
-			}
-			c.R.Add("attributions_confirmed", 1)
-			if round == 1 {
-				c.R.Distinct("entry_points", e.name)
-				c.R.NonTrivial(fmt.Sprint(desc), c.X("build", ""), c.Testing)
-				if c.R.WantSample() && cl.skip > 0 {
-					c.R.Sample(idx, desc, map[string]any{"reported": d.Caller, "expected": want})
-				}
-			}
+		}
 		} // round
 	})
 }
